@@ -278,6 +278,11 @@ func (v *Verdict) finish(runs []*Run, keep *bool) int {
 
 	// replay files
 	os.MkdirAll(filepath.Join(verifDir, "evidence", "replay"), 0o755)
+	if old, _ := filepath.Glob(filepath.Join(verifDir, "evidence", "replay", fmt.Sprintf("%s-%s-s%d-*.json", prop, tier, seed))); len(old) > 0 {
+		for _, o := range old {
+			os.Remove(o)
+		}
+	}
 	var lines []string
 	runByName := map[string]*Run{}
 	for _, r := range runs {
@@ -291,6 +296,9 @@ func (v *Verdict) finish(runs []*Run, keep *bool) int {
 		rec := map[string]interface{}{"property": prop, "tier": tier, "seed": seed, "violation": x}
 		if r := runByName[x.Run]; r != nil {
 			rec["run"] = r
+		}
+		if r := runByName[x.Also]; r != nil {
+			rec["also_runs"] = []*Run{r}
 		}
 		b, _ := json.MarshalIndent(rec, "", " ")
 		os.WriteFile(rp, b, 0o644)
